@@ -3,18 +3,31 @@ From Coq Require Import Ascii.
 From Cashews Require Import Base.Prelude Model.Serializer Proofs.SerializerProofs.
 Open Scope string_scope.
 
-(* For every pickler/MAC meeting the stated contract (round trip of dumps/loads, pickles are not
-   digit-only, a "bytes:"-prefixed payload is rejected by the unpickler with its own error class or
-   passed through, MAC output is hex), every configuration (no signer, or a HashSigner with one of
-   the four digests and any secret), every key and every value: decode (encode v) = v. *)
-Theorem C09_ser_roundtrip : forall dumps loads mac,
+(* For every pickler / MAC / custom-type registry meeting the stated contract (round trip of dumps/loads,
+   pickles are not digit-only, a registered type's decoder inverts its encoder and its "name:"-prefixed
+   payload is rejected by the unpickler with its own error class or passed through, type names contain no
+   ':', bytes stay registered, MAC output is hex), every configuration (no signer, or a HashSigner with one
+   of the four digests and any secret), every key and every value: decode (encode v) = v. *)
+Theorem C09_ser_roundtrip : forall dumps loads mac cenc cdec,
   (forall v p, dumps v = Some p -> loads p = LOk v) ->
   (forall v p, dumps v = Some p -> isdigit p = false) ->
-  (forall b, loads ("bytes:" ++ b) = LUnpick \/ loads ("bytes:" ++ b) = LOk (VBytes ("bytes:" ++ b))) ->
+  (forall v ty e, cenc v = Some (ty, e) -> cdec ty e = Some v) ->
+  (forall v ty e, cenc v = Some (ty, e) -> contains ":"%char ty = false) ->
+  (forall v ty e, cenc v = Some (ty, e) ->
+     loads (ty ++ ":" ++ e) = LUnpick \/ loads (ty ++ ":" ++ e) = LOk (VBytes (ty ++ ":" ++ e))) ->
   (forall dg s m, contains "_"%char (mac dg s m) = false /\ contains ":"%char (mac dg s m) = false) ->
-  forall c key v, cfg_ok c -> fst (decode loads mac c key (encode dumps mac c key v)) = DVal v.
+  (forall b, cenc (VBytes b) <> None) ->
+  forall c key v, cfg_ok c -> fst (decode loads mac cdec c key (encode dumps mac cenc c key v)) = DVal v.
 Proof. exact ser_roundtrip. Qed.
 Print Assumptions C09_ser_roundtrip.
+
+(* the shipped registry (bytes only) meets the registry part of the contract *)
+Theorem C09_default_registry_ok :
+  (forall v ty e, default_cenc v = Some (ty, e) -> default_cdec ty e = Some v) /\
+  (forall v ty e, default_cenc v = Some (ty, e) -> contains ":"%char ty = false) /\
+  (forall b, default_cenc (VBytes b) <> None).
+Proof. exact default_registry_ok. Qed.
+Print Assumptions C09_default_registry_ok.
 
 (* the framing itself: a signed blob always verifies and yields back exactly its payload *)
 Theorem C09_check_sign_sign : forall mac,
@@ -29,6 +42,6 @@ Example C09_example :
   let loads b := match b with String "P"%char r => LOk (VStr r) | _ => LUnpick end in
   let mac (dg s m : string) := "abc123" in
   let c := {| signer := Some ("md5", "k") |} in
-  map (fun v => fst (decode loads mac c "key" (encode dumps mac c "key" v))) [VBytes "123"; VBytes "md5:x_y"; VStr "_:"; VInt 5]
+  map (fun v => fst (decode loads mac default_cdec c "key" (encode dumps mac default_cenc c "key" v))) [VBytes "123"; VBytes "md5:x_y"; VStr "_:"; VInt 5]
   = [DVal (VBytes "123"); DVal (VBytes "md5:x_y"); DVal (VStr "_:"); DVal (VInt 5)].
 Proof. vm_compute. reflexivity. Qed.
